@@ -525,6 +525,8 @@ def _truthiness_uses(test, name):
 CL = 'fim/slivers/capacities_labels.py'
 MM = 'fim/slivers/maintenance_mode.py'
 MUTANTS = [
+    {'name': 'maintenance-get-hands-out-the-entry', 'file': 'fim/slivers/maintenance_mode.py', 'rule': 'R4',
+     'find': "        return dataclasses.replace(entry) if entry is not None else None\n", 'replace': "        return entry\n"},
     {'name': 'unknown-keys-reach-the-setters', 'file': 'fim/slivers/capacities_labels.py', 'rule': 'R2',
      'find': "        for k in [k for k in d if k not in ret.__dict__]:\n", 'replace': "        for k in []:\n"},
     {'name': 'gateway-wraps-absent', 'file': 'fim/slivers/gateway.py', 'rule': 'R9',
